@@ -1,7 +1,7 @@
 """C11 — stop and cancel end the whole execution tree; late results change nothing."""
 import json
 
-GEN = ['states']
+GEN = ['states', 'race_scripts']
 MANIFEST = {
     'technique': 'Lean 4 invariants over two executable models tied to the real engine step by step: the engine core of '
                  'ONE workflow (Mistral.Engine) and the execution TREE (Mistral.Tree: workflow executions linked to the '
@@ -28,9 +28,19 @@ MANIFEST = {
             'real after EVERY event on generated trees: all workflow and task execution rows incl. state_info / output '
             'class / accepted / registered and processed result messages / with-items bookkeeping, and the multiset of '
             'pending deliveries), lifecycle stream (exhaustive). The `_full_fails` witnesses are replayed on the real '
-            'engine on every run (corpus/C11/tree_*.json).',
-    'note': 'One event = one committed transaction (in-process atomicity); multi-process sub-transaction races are not '
-            'exhibited. Mistral.Tree has no joins / data flow / policies / pause / rerun (Mistral.Engine and the other '
+            'engine on every run (corpus/C11/tree_*.json). STATEMENT GRANULARITY ("late results do not change its state or '
+            'output" below one transaction; docs/RACE.md): Mistral.Props.C03Race / C03RaceCac over the scripts REGENERATED '
+            'from _succeed_workflow / _fail_workflow / _cancel_workflow / set_state / the completion-check transaction, for '
+            'ALL interference schedules (an arbitrary committed transaction in every gap between two statements): '
+            '*_atomic, fail/cancel_keeps_finished, succeed_keeps_finished (full since repo fix ce9b9520), *_state_output_together, '
+            'cac_succeed_keeps_finished (full since repo fix ce9b9520), cac_one_party_full_fails/_partial (known findings); tie: '
+            'race-wf stream (real stop / pause / completion check of a second session committed at every pre-lock SQL '
+            'statement of the real completion / stop transaction, compared with Mistral.Race.runWith; monitor on the rows).',
+    'note': 'One event = one committed transaction (in-process atomicity) in Mistral.Engine / Mistral.Tree; multi-process '
+            'sub-transaction races ARE exhibited at SQL-statement granularity for the workflow row under the stop / '
+            'completion scripts (_succeed/_fail/_cancel_workflow, set_state, completion check with force-fail handler) '
+            'against arbitrary concurrent transactions; NOT for the recursion of stop(CANCELLED) into sub-workflow rows, '
+            'task / action rows (Task.set_state, result acceptance), pause / resume, named locks. Mistral.Tree has no joins / data flow / policies / pause / rerun (Mistral.Engine and the other '
             'properties cover those for a single workflow). "The parent task of a cancelled child becomes CANCELLED" and '
             '"exactly one result message is PROCESSED once everything pending is delivered" are decided by the tree '
             'stream (registered / processed counters compared after every event) and its monitors at quiescence, not by a '
@@ -42,13 +52,19 @@ RULE = ('stream lifecycle (exhaustive); stream core (mode stop/mixed); stream en
         'continuations (some calling the next level again) and an extra action task x start mode (in-process / '
         'start_subworkflows_via_rpc) x action results x 0..3 operator commands stop(CANCELLED|ERROR|SUCCESS) on the root '
         'or an inner / running execution at random points x schedule policy (random / fifo / lifo) of all pending '
-        'deliveries; non-trivial = trace with a stop command; distinct = distinct case descriptions')
+        'deliveries; non-trivial = trace with a stop command; distinct = distinct case descriptions; stream race-wf: '
+        '6 scenarios x 5 interferers x every pre-lock significant SQL statement (exhaustive, 81 cases)')
 TRUSTED = ['harness seams replaced by recorders',
+           'translate/race_scripts.py (AST, fail closed); harness/race_driver.py: SQL statement tap, thread-local swap; '
+           'row-lock waits modelled, not executed on sqlite',
            'tree stream: executions and task executions are identified by creation rank; state_info / output are compared '
            'by class (none / the operator message / engine-computed)']
-LEAN_MODULES = ['Mistral.Props.C11', 'Mistral.Props.C11Tree']
+LEAN_MODULES = ['Mistral.Props.C11', 'Mistral.Props.C11Tree', 'Mistral.Props.C03Race', 'Mistral.Props.C03RaceCac']
 # second/third round: the C11Tree theorems are at full strength and hold for EVERY event history (stops, pause and
 # resume commands with their propagation, lost post-commit operations); see docs/C11.md
+RACE_CHUNKS = [{'family': 'wf', 'scenarios': ['cacSucceed', 'stopCancel']},
+               {'family': 'wf', 'scenarios': ['cacFail', 'stopSuccess']},
+               {'family': 'wf', 'scenarios': ['cacCancel', 'stopError']}]
 
 
 def correspond(ctx):
@@ -61,12 +77,17 @@ def correspond(ctx):
     par.run_parallel(ctx, 'harness.engine_stream', 'run_chunk',
                      [{'n_programs': ctx.n(10, 300), 'props': ['C11'], 'mode': 'stop'}] * 14)
     par.run_parallel(ctx, 'harness.tree_stream', 'run_chunk', [{'n_cases': ctx.n(8, 120), 'props': ['C11']}] * 14)
+    # statement granularity ("late results do not change state or output" below one transaction)
+    par.run_parallel(ctx, 'harness.race_driver', 'run_chunk', RACE_CHUNKS)
 
 
 def search(ctx):
     """Failing-input search after a broken obligation / disagreement: the tree monitors on a widened population
     (every case with operator commands, other seeds); the corpus witnesses run again."""
     from vlib import par
+    par.run_parallel(ctx, 'harness.race_driver', 'run_chunk', RACE_CHUNKS)
+    if ctx.violations:
+        return
     seed = ctx.seed
     ctx.seed = seed + 1000
     try:
@@ -77,6 +98,15 @@ def search(ctx):
 
 def replay(ctx, rep):
     r = rep.get('replay', rep)
+    if isinstance(r, dict) and r.get('kind') == 'race':
+        from harness import race_driver
+        n0 = len(ctx.violations) + len(ctx.known_hit)
+        race_driver.run_chunk(ctx, 'wf', [r['scenario']], [r['interferer']])
+        print('replay: %s x %s at every gap -> %d hit(s)' % (
+            r['scenario'], r['interferer'], len(ctx.violations) + len(ctx.known_hit) - n0))
+        for v in ctx.violations:
+            print('  ', v['what'][:300], json.dumps(v['signature']))
+        return
     if isinstance(r, dict) and r.get('kind') == 'tree':
         from harness import boot
         boot.boot()
